@@ -93,6 +93,9 @@ func snapMsg(kind string, conn int, m *service.Message) Event {
 }
 
 func (e *eventer) OnJoinEvent(msg *service.Message, key string, err error) {
+	if e.sc.Silent {
+		return
+	}
 	ev := snapMsg("cb_join", e.conn, msg)
 	ev.Key = key
 	if err != nil {
@@ -100,13 +103,24 @@ func (e *eventer) OnJoinEvent(msg *service.Message, key string, err error) {
 	}
 	e.r.add(ev)
 }
-func (e *eventer) OnLeaveEvent(key string) { e.r.add(Event{Kind: "cb_leave", Conn: e.conn, Key: key}) }
+func (e *eventer) OnLeaveEvent(key string) {
+	if e.sc.Silent {
+		return
+	}
+	e.r.add(Event{Kind: "cb_leave", Conn: e.conn, Key: key})
+}
 func (e *eventer) OnNotSupportedEvent(msg *service.Message) {
+	if e.sc.Silent {
+		return
+	}
 	e.r.add(snapMsg("cb_unsupported", e.conn, msg))
 }
 func (e *eventer) OnReadExecutionEvent(msg *service.Message) {
 	if e.sc.ReadHoldUs > 0 {
 		time.Sleep(time.Duration(e.sc.ReadHoldUs) * time.Microsecond)
+	}
+	if e.sc.Silent {
+		return
 	}
 	ev := snapMsg("cb_read", e.conn, msg)
 	ev.Flag = msg.ExtensionFields.SubcontractComplete
@@ -125,6 +139,9 @@ func (e *eventer) OnReadExecutionEvent(msg *service.Message) {
 func (e *eventer) OnWriteExecutionEvent(msg service.Message) {
 	if e.sc.WriteHoldUs > 0 {
 		time.Sleep(time.Duration(e.sc.WriteHoldUs) * time.Microsecond)
+	}
+	if e.sc.Silent {
+		return
 	}
 	ev := snapMsg("cb_write", e.conn, &msg)
 	ev.Flag = msg.ExtensionFields.ActiveSend
@@ -558,8 +575,11 @@ func childMain() {
 		os.Exit(2)
 	}
 	// the probe connection above is connection #1 of the server: let it finish
-	for try := 0; try < 400 && r.count("cb_leave") < 1; try++ {
+	for try := 0; try < 400 && r.count("cb_leave") < 1 && !sc.Silent; try++ {
 		time.Sleep(2 * time.Millisecond)
+	}
+	if sc.Silent {
+		time.Sleep(20 * time.Millisecond)
 	}
 	probe := int(connCount.Load())
 	r.add(Event{Kind: "ready", Conn: probe})
@@ -618,13 +638,17 @@ func childMain() {
 		settle = 3000
 	}
 	end := time.Now().Add(time.Duration(settle) * time.Millisecond)
+	if sc.Silent {
+		time.Sleep(150 * time.Millisecond)
+		end = time.Now()
+	}
 	for time.Now().Before(end) {
 		if r.count("cb_leave") >= int(connCount.Load()) {
 			break
 		}
 		time.Sleep(time.Millisecond)
 	}
-	if r.count("cb_leave") < int(connCount.Load()) {
+	if r.count("cb_leave") < int(connCount.Load()) && !sc.Silent {
 		r.add(Event{Kind: "settle_timeout", Note: fmt.Sprintf("%d connections accepted, %d left", connCount.Load(), r.count("cb_leave"))})
 	}
 	// quiescence: callbacks that were in flight when the last connection left must have a chance to finish
